@@ -487,11 +487,16 @@ def exec (cfg : Cfg) (st : St) : Act → St × List Ob × List Act
       let (st3, acts) := reqDone st2 q.owner k r'
       (st3, (if nested then [Ob.fired k (match r with | .ok _ => none | .err kd => some kd)] else []) ++ obs, acts)
   | .timeoutFired k =>
+    -- `_mrtb_timeout`: record the failure, `d.cancel()` (the broker client errbacks at once and
+    -- `_mrtb_cb` substitutes the recorded failure), then the optional `disconnect()`
     match reqGet st k with
     | none => (st, [.badOp "timeoutFired"], [])
     | some q =>
-      (setReq st k (fun x => { x with timedOut := true }), [.bcCancel k],
-       [.fireReq k (.err .cancelled) true] ++ (if cfg.disconnectOnTimeout then [.disconnect q.b] else []))
+      if !q.pending then (st, [.badOp "timeoutFired resolved"], []) else
+      let st1 := setReq st k (fun x => { x with timedOut := true, pending := false })
+      let (st2, acts) := reqDone st1 q.owner k (.err Kind.timedOut)
+      (st2, [.bcCancel k, .fired k (some .cancelled)],
+       acts ++ (if cfg.disconnectOnTimeout then [.disconnect q.b] else []))
   | .cancelReq k =>
     match reqGet st k with
     | none => (st, [.badOp "cancelReq"], [])
@@ -547,9 +552,9 @@ def exec (cfg : Cfg) (st : St) : Act → St × List Ob × List Act
           -- `_merge_topic_metadata`: `_update_brokers` first — closing broker clients there fails their
           -- requests synchronously (which may reset the cache) — then the per-topic loop
           let byId := dictOfList (bs.map (fun b => (b.nodeId, b)))
-          let (c1, closed) := updateBrokersDict st0.cache byId (fetchAll && !byId.isEmpty)
-          let (st1, obs, acts) := applyUpdate st0 c1 closed bs
-          (st1, obs, acts ++ [.mergeTopics ts lo])
+          let ub := updateBrokersDict st0.cache byId (fetchAll && !byId.isEmpty)
+          let au := applyUpdate st0 ub.1 ub.2 bs
+          (au.1, au.2.1, au.2.2 ++ [.mergeTopics ts lo])
         | .ok .garbage => (st0, [], deliverLoad lo (.err (.other garbageCls)))
         | .ok _ => (st0, [.badOp "payload"], [])
         | .err kd => (st0, [], deliverLoad lo (if kd.isCancel then .ok .none else .err .unavailable))
@@ -559,9 +564,9 @@ def exec (cfg : Cfg) (st : St) : Act → St × List Ob × List Act
         match r with
         | .ok (.coord 0 b) =>
           let c1 := { st1.cache with groups := upsert g b st1.cache.groups }
-          let (c2, closed) := updateBrokers c1 [b] false
-          let (st2, obs, acts) := applyUpdate { st1 with cache := c1 } c2 closed [b]
-          (st2, obs, acts ++ ws.map (fun w => Act.waiterFire w.1 (.ok (.simple 1))))
+          let ub := updateBrokers c1 [b] false
+          let au := applyUpdate { st1 with cache := c1 } ub.1 ub.2 [b]
+          (au.1, au.2.1, au.2.2 ++ ws.map (fun w => Act.waiterFire w.1 (.ok (.simple 1))))
         | _ =>
           ({ st1 with cache := resetGroup st1.cache g }, [], ws.map (fun w => Act.waiterFire w.1 (.err Kind.coordNA)))
   | .waiterFire w r =>
@@ -738,7 +743,7 @@ def exec (cfg : Cfg) (st : St) : Act → St × List Ob × List Act
   | .cancelU u =>
     match unawareGet st u with
     | none => (st, [.badOp "cancelU"], [])
-    | some x => let (obs, acts) := cancelUnaware x; (st, obs, acts)
+    | some x => (st, (cancelUnaware x).1, (cancelUnaware x).2)
   | .finishClose o =>
     let st1 := { st with cache := resetAll st.cache }
     match st1.closeDlist with
@@ -782,14 +787,14 @@ def cancelOp (st : St) (o : Nat) : St × List Ob × List Act :=
   if !st.liveOps.contains o then (st, [], []) else
   -- load_metadata_for_topics called by the application
   match (st.unawares.filter (fun x => x.owner == .load true (.api o) || x.owner == .load false (.api o))).head? with
-  | some x => let (obs, acts) := cancelUnaware x; (st, obs, acts)
+  | some x => (st, (cancelUnaware x).1, (cancelUnaware x).2)
   | none =>
   match (st.sends.filter (fun x => x.o == o)).head? with
   | some x =>
     match x.phase with
     | .resolving _ =>
       match (st.unawares.filter (fun y => y.owner == .load false (.leader x.s) && y.st != .done)).head? with
-      | some y => let (obs, acts) := cancelUnaware y; (st, obs, acts)
+      | some y => (st, (cancelUnaware y).1, (cancelUnaware y).2)
       | none => (suppressWaiter st (.send x.s), [], [.sendCoordLoaded x.s (.err .cancelled)])
     | .inflight slots =>
       let live := slots.filter (fun sl => sl.res.isNone)
